@@ -2,7 +2,7 @@
    proofs/P_C01.v.  [in_dev d a n]: the range [a, a+n) lies inside the device image and no
    access is scripted to fail.  [same_outside d d' a n]: every byte outside [a, a+n) is
    unchanged.  Model: model/RegCodec.v (uncached register access). *)
-From Cam Require Import Outcome Bytes Mem BitField RegCodec P_C01.
+From Cam Require Import Outcome Bytes Mem BitField RegCodec P_C01 P_C01f.
 
 (* integers: the image written is the two's-complement image in the declared byte order, one
    write of exactly [address, address+length), read-back returns the value *)
@@ -45,6 +45,19 @@ Theorem C01_f64_bits_exact : forall b e, 0 <= b < 2 ^ 64 ->
               img = order e (le_bytes 8 b).
 Proof. exact f64_bits_exact. Qed.
 Print Assumptions C01_f64_bits_exact.
+
+(* 4-byte floats: for every binary32 pattern that is not a NaN, narrowing its widening gives the
+   pattern back, so a 4-byte float register written with an f32-representable value holds the
+   binary32 image and reads back exactly that value (zeros, subnormals, normals, infinities) *)
+Theorem C01_f32_roundtrip : forall b, 0 <= b < 2 ^ 32 -> is_nan32 b = false -> narrow (widen b) = b.
+Proof. exact f32_roundtrip. Qed.
+Print Assumptions C01_f32_roundtrip.
+
+Theorem C01_f32_register_roundtrip : forall x e, 0 <= x < 2 ^ 32 -> is_nan32 x = false ->
+  exists img, bytes_from_float (widen x) 4 e = Ok img /\ img = order e (le_bytes 4 x) /\
+              float_from_slice img e = Ok (widen x).
+Proof. exact f32_register_roundtrip. Qed.
+Print Assumptions C01_f32_register_roundtrip.
 
 Theorem C01_float_unsupported_len : forall bits len e, len <> 4 -> len <> 8 ->
   bytes_from_float bits len e = Err E_INVALID_BUFFER.
